@@ -227,6 +227,10 @@ func VerifyWithCustomWOTSParamW(message, signature []uint8, extendedPK [Extended
 	if uint32(len(signature)) > signatureBaseSize+uint32(MaxHeight)*32 {
 		panic("invalid signature size. Height<=254")
 	}
+	if uint64(len(signature)) > uint64(signatureBaseSize)+uint64(MaxHeight)*32 {
+		// the size checks (above and below) only see the low 32 bits of the length
+		panic("invalid signature size. Height<=254")
+	}
 
 	desc := NewQRLDescriptorFromExtendedPK(&extendedPK)
 
